@@ -5,7 +5,7 @@ from .. import gen
 
 ID = "C19"
 NEEDS_SHIM = False
-BUDGET = {"quick": 2000, "thorough": 50000}
+BUDGET = {"quick": 2000, "thorough": 200000}
 MIN_EVALS = {"quick": 3000, "thorough": 80000}
 RULE = (
     "seeded random cases: grid dataset of 1-2 axes (a quarter of them two faces joined by same-axis or axis-swapping links, the input there a scalar or a vector component {axis: component} with its partner) with dimension coordinates on all, none or a random subset of the dimensions (with attributes), 0-5 random "
@@ -35,7 +35,7 @@ def gen_case(rng, i, tier):
                           "1": {"X": [[0, "X", False], [0, "X", False]], "Y": [[1, "Y", False], [1, "Y", False]]}}])
     else:
         nax = rng.randint(1, 2)
-        layout = gen.random_layout(rng, nax=nax, nmin=2, nmax=4, p=0.6, at_least=2)
+        layout = gen.random_layout(rng, nax=nax, nmin=2, nmax=gen.deep(rng, tier, 4, 8), p=0.6, at_least=2)
         fc = None
     axn = [a["name"] for a in layout["axes"]]
     cm = gen.layout_coords(layout)
